@@ -116,6 +116,24 @@ CHECKS = {
              "parameters must give identical volumes for every arc and store at every timestep.",
         design="5/C20", tech="Coq proof (relational erasure lemmas) + paired exact whole-model runs (partial)",
         note=NOTE),
+    "C13": dict(
+        text="PARTIAL proof: chunking theorem (a run over d1 ++ d2 is the run over d1 followed by the run over d2 from the state "
+             "reached, results concatenated, for any step function whose whole state is its argument) and well-definedness of "
+             "the river order as a function of insertion order alone (model compared exactly with the implementation on random "
+             "river graphs). Interpreter-level behaviour is reached only by the monitor: bit-exact reruns, every 2-chunk split, "
+             "fresh interpreters under several hash seeds, contamination by another model in the same process. Two genuine "
+             "defects (hash-seed dependent river order) were repaired with fix: commits.",
+        design="5/C13", tech="Coq proof of the chunking / order-determinism core + fresh-interpreter differential reruns of the implementation (partial)",
+        note=NOTE),
+    "C16": dict(
+        text="Theorems about the model of Model.add_arcs / assign_upstream / river_discharge_order: for ANY river arc list "
+             "(convergent or divergent, any insertion order) whose levels converged, a river precedes every river it can reach "
+             "through river / junction / reservoir arcs, every river that drains to an outlet is in the order exactly once, "
+             "levels strictly decrease downstream. Tie: exact river-order correspondence on random acyclic graphs. The "
+             "call-sequence clauses (orchestration order, once per node, close-out, recorded flow = delivered flow) are checked "
+             "by an event-log monitor on the implementation (partial for that part).",
+        design="5/C16", tech="Coq proof (relaxation fixpoint + stable sort) over a hand-written model + exact river-order correspondence + event-log monitor",
+        note=NOTE),
 }
 
 ALL = [f"C{n:02d}" for n in range(1, 21)]
